@@ -45,6 +45,14 @@ def replay (j : Json) : R Verdict := do
       if (fieldD r "ret").compress == "\"panic\"" then pf := pf ++ [s!"C15: run {k} with the Signal criterion panicked"]
       k := k + 1
   | none => if !(fieldD j "signalTwin").isNull then dis := some s!"signal experiment gave no output: {(fieldD j "signalTwin").compress}"
+  -- C04: the first result is one ulp ABOVE the target 1.0, the eleventh is the target: the run ends at the eleventh
+  if (fieldD j "nearTarget").getBool?.toOption == some true then
+    tags := "run:near-target" :: tags
+    let one : Int := 4607182418800017408
+    match (fieldD (fieldD ret "ok") "best").getInt?.toOption with
+    | some b => if b > one || calls != 11 then
+        pf := pf ++ [s!"C04: target 1.0, first result one ulp above it, eleventh result exactly 1.0: the run made {calls} evaluations and returned a best-seen objective with order code {b} ({if b > one then "ABOVE the target" else "the target"})"]
+    | none => pf := pf ++ [s!"C04: target 1.0 reachable at the eleventh evaluation, the run returned {ret.compress}"]
   match (fieldD j "stdoutNoise").getNat?.toOption with
   | some k => if k > 0 then pf := pf ++ [s!"C16: the library wrote {k} byte(s) to the process's standard output during a run: a successful CLI run would print more than its one line"]
   | none => pure ()
